@@ -50,7 +50,7 @@ def run_shard(ctx):
     mon_cf.CONFIG.update(K={"quick": 2, "thorough": 3}[ctx.tier])
     rng = ctx.rng
     classes = {}
-    for i in range(ctx.share({"quick": 2000, "thorough": 50000}[ctx.tier])):
+    for i in range(ctx.share({"quick": 30000, "thorough": 200000}[ctx.tier])):
         n = rng.choice([2, 3, 3, 4, 4, 4] + ([5] if ctx.tier == "thorough" else []))
         gd = gg.random_admg(rng, n)
         ev, cls = gev.random_event(rng, gd)
